@@ -483,6 +483,9 @@ def stale_ps(repo: Repo) -> List[Ob]:
         typer = Typer(repo, fi)
         cfg = CFG(fi.node)
         handles = {nm for nm, cl in typer.var.items() if cl == {"ProductState"}}
+        # … and names the code itself narrows with `assert isinstance(x, ProductState)`
+        handles |= {a.test.args[0].id for a in walk_no_nested(fi.node) if isinstance(a, ast.Assert) and isinstance(a.test, ast.Call) and src(a.test.func) == "isinstance"
+                    and len(a.test.args) == 2 and isinstance(a.test.args[0], ast.Name) and src(a.test.args[1]) == "ProductState"}
 
         def atom(e, truth, st):
             fresh, grouped = st
@@ -506,6 +509,15 @@ def stale_ps(repo: Repo) -> List[Ob]:
             a = s.ast
             if s.kind == "stmt" and isinstance(a, (ast.Assign, ast.AnnAssign)) and getattr(a, "value", None) is not None:
                 tg = a.targets[0] if isinstance(a, ast.Assign) else a.target
+                if isinstance(tg, (ast.Tuple, ast.List)):
+                    # (only,) = <fresh look-up>
+                    for e in tg.elts:
+                        if isinstance(e, ast.Name) and e.id in handles:
+                            v = a.value
+                            if isinstance(v, ast.Name) and v.id in stale_lists.get(id(st), set()):
+                                fresh = fresh - {e.id}
+                            else:
+                                fresh = fresh | {e.id}
                 if isinstance(tg, ast.Name) and tg.id in handles:
                     v = a.value
                     if isinstance(v, ast.Name) and v.id in handles:
